@@ -85,14 +85,15 @@ PROPS = {
         trusted=['T3 as C01', 'T4 as C01'],
     ),
     'C16': dict(
-        vx_units=['server'], kx=[], rx=['readdir'],
-        design_ref='DESIGN.md section 5, C16',
+        vx_units=['server', 'ptreaddir'], kx=[], rx=['readdir'],
+        design_ref='DESIGN.md A.4 / A.6 (D15)',
         not_covered=[
-            'exactly-once reassembly across chunks and resumption offsets: Server::do_readdir (closure capturing &mut cursor), PseudoFs::do_readdir, passthrough do_readdir (getdents64, lseek, cookie cache) and the VFS wrappers are NOT verified; only the reply-assembly step add_dirent is',
-            'readdirplus lookup-reference accounting for delivered entries (passthrough, syscalls)',
-            'omission of "." and "..", non-zero continuation offsets, the final empty reply',
+            'the closures of passthrough readdir / readdirplus (unit ptlookup, C08: reference accounting); Server::do_readdir\'s closure, PseudoFs::do_readdir, the VFS wrappers',
+            'stale cookies on the lseek path (file-system specific); releasedir / handle-reuse hygiene of the cookie table; concurrency',
+            'that the capacity of the getdents buffer is >= size; that each exchange is one do_readdir call on an UNCHANGED directory (hypotheses of the cross-call lemma)',
         ],
-        trusted=['T3 as C01', 'T4 abstract Writer (a split cursor only buffers)'],
+        trusted=['T3/T4 as C01', 'kernel directory-stream model (ptreaddir.py): dir_content is a sequence with non-zero pairwise distinct cookies; lseek64(fd, d_off of entry i) positions after i, lseek64(fd, 0) rewinds; getdents64 returns well-formed records of a run of the stream, 0 iff at the end',
+                 'packed little-endian image of LinuxDirent64 (generated from the struct text); bytes_to_cstr contract; HandleMap cookie table as a ghost map; R23 ghost token'],
     ),
     'C12': dict(
         vx_units=['server', 'vfs', 'ptinit', 'vfsmount'], kx=[], rx=['init'],
@@ -107,16 +108,18 @@ PROPS = {
                  'kernel side: process_init_reply() reads flags2 only if FUSE_INIT_EXT is set in flags (fs/fuse/inode.c)'],
     ),
     'C08': dict(
-        vx_units=['inodes'], kx=[],
-        design_ref='DESIGN.md section 5, C08',
+        vx_units=['inodes', 'ptlookup'], kx=[],
+        design_ref='DESIGN.md A.4 / A.6 (D16, D17)',
         not_covered=[
-            'the global accounting "references = entries returned - forgets": do_lookup and every entry-returning passthrough operation (lookup, create, mkdir, mknod, symlink, link, readdirplus) are chains of syscalls and are not extracted',
-            'behaviour of a valid inode number after rename / unlink (kernel semantics), release of descriptors (Drop)',
-            'termination of the compare-exchange retry loop; interleavings with concurrent lookups (C09)',
-            'allocate_inode (AtomicU64::fetch_add on &self, UniqueInodeGenerator)',
+            'forget_one keeping the store invariant of unit ptlookup (unit inodes states its frame only); import() itself (only the state it builds)',
+            'do_readdir driving the callbacks (unit ptreaddir, C16), forget / batch_forget entry points, and the create / mkdir / mknod / symlink / link call sites of do_lookup',
+            '"behaves as on the host" on valid inode numbers, after rename / unlink (kernel semantics), release of descriptors (Drop)',
+            'concurrency beyond lock-point interference (at every lock acquisition the store may become any store satisfying the invariant; refcount loads are unconstrained): C09',
         ],
-        trusted=['T3 BTreeMap as a sequential map; AtomicU64 as an opaque cell whose loads are unconstrained and whose compare_exchange is capability-guarded',
-                 'T8 the caller holds the write lock on the inode map (forget_one takes &mut InodeStore)'],
+        trusted=['T3 BTreeMap as a sequential map; AtomicU64 as an opaque cell whose loads are unconstrained and whose compare_exchange / fetch_add are capability-guarded',
+                 'T8 the caller holds the write lock on the inode map (forget_one takes &mut InodeStore); other threads keep the invariant; allocation counters and the prefix mutex are sequential; locks are never poisoned',
+                 'host results (open, statx, file handle) are uninterpreted; Arc<FileHandle> key = the FileHandle it holds; models of CStr::from_bytes_with_nul, Option::or_else / filter, btree_map::Entry',
+                 'rules R23 (ghost token), R31 (Result::inspect), R32 (Option::unwrap_or_else), R17\' (callback that continues after its continuation)'],
     ),
     'C04': dict(
         vx_units=['iobuffers', 'fusedevw', 'virtiofsw'], kx=['file_buf'],
